@@ -488,7 +488,7 @@ func Run(r *hx.Run, replay []hx.Case) {
 		}
 	}
 	// retries on the same Auth value: first call honest / interrupted, second call on a new connection.
-	// thorough: 4 first calls x every second sequence up to length 3 over the 11 symbols; quick: the honest and the
+	// thorough: 4 first calls x every second sequence up to length 2 (after the honest first call: 3) over the 11 symbols; quick: the honest and the
 	// interrupted first call x every second sequence of length 1 and those of length 2 that start with the replayed
 	// final, an empty challenge, a valid final or the empty-state final (the honest first call costs the model ~25 ms)
 	firsts := [][]byte{{symEmpty, symFirst, symFinal, symSuccess}, {symEmpty, symFirst}, {symEmpty, symFirst, symFinal}, {symEmpty}}
@@ -504,6 +504,9 @@ func Run(r *hx.Run, replay []hx.Case) {
 				enumerate(n, 11, func(seq []byte) bool {
 					if r.Expired() {
 						return false
+					}
+					if thorough && n == 3 && len(f1) != 4 {
+						return false // length 3 only after the honest first call (model time)
 					}
 					if !thorough && n == 2 && seq[0] != symReplay && seq[0] != symEmpty && seq[0] != symFinal && seq[0] != symFinalEmpty {
 						return true
